@@ -165,6 +165,34 @@ def _task(task):
                                             {"layout": i, "layout_name": name, "LEN": ln, "n": n, "packet": pkt.hex(), "parse_bad_pkts": pb,
                                              "via": via, "tier": task.get("tier", "quick")}, expected=klass, observed=obs[:3] if obs[0] != "clean" else obs[0], note=why)
                 t.nontrivial += 1
+            # re-parse: a raw packet object from the framer, wrapped and parsed twice
+            from space_packet_parser.packets import CCSDSPacket, ccsds_generator
+            for ln in lens:
+                pre = prefix(ln)
+                probe = docs.packet_for(i, (pre + "01" * 200)[:400])
+                o = decode_packet(doc, probe)
+                if o.kind != "parsed" or (o.consumed - 48) % 8:
+                    continue
+                pkt = docs.packet_for(i, (pre + "01" * 200)[:o.consumed - 48])
+                want = decode_packet(doc, pkt)
+                if want.kind != "parsed" or want.consumed != 8 * len(pkt):
+                    continue
+                raw_obj = next(ccsds_generator(pkt))
+                for attempt_no in (1, 2, 3):
+                    t.evals += 1
+                    try:
+                        with observed_warnings():
+                            out = defn.parse_ccsds_packet(CCSDSPacket(raw_data=raw_obj))
+                        why = compare_items(want.items, items_of(out))
+                        if why is None and out.raw_data.pos != want.consumed:
+                            why = f"cursor {out.raw_data.pos} != sum of decoded widths {want.consumed}"
+                    except Exception as e:  # noqa: BLE001
+                        why = f"raised {type(e).__name__}: {str(e)[:80]}"
+                    if why:
+                        t.violation({"kind": "reparse-accounting", "attempt": attempt_no}, {"layout": i, "layout_name": name, "LEN": ln, "packet": pkt.hex(), "via": via,
+                                                                                           "tier": task.get("tier", "quick"), "reparse": attempt_no},
+                                    note=f"parse #{attempt_no} of the same raw packet object: {why}")
+                        break
         t.programs += 1
     if 0 in task["layouts"]:
         t.sample({"layout": ls[7][0], "LEN": "0..5", "data_lengths": "1..required+3", "fills": ["00", "FF", "41"], "parse_bad_pkts": [True, False]})
@@ -190,6 +218,8 @@ def run(ctx):
 
 def replay(case):
     t = _task({"layouts": [case["layout"]], "via": case.get("via", "xml"), "tier": case.get("tier", "quick")})
+    if "reparse" in case:
+        return next((v for v in t.violations if v["case"].get("reparse") and v["case"]["packet"] == case["packet"]), None)
     for v in t.violations:
         if v["case"]["packet"] == case["packet"] and v["case"]["parse_bad_pkts"] == case["parse_bad_pkts"]:
             return v
